@@ -1,8 +1,6 @@
 package main
 
 import (
-	"strconv"
-	"regexp"
 	"bytes"
 	"fmt"
 	"go/ast"
@@ -11,7 +9,9 @@ import (
 	"go/types"
 	"os"
 	"path/filepath"
+	"regexp"
 	"sort"
+	"strconv"
 	"strings"
 
 	"golang.org/x/tools/go/packages"
@@ -35,11 +35,11 @@ type Clause struct {
 }
 
 type LoopSpec struct {
-	Invs      []Clause
-	Dec       *Clause
-	Splits    []Clause
-	SplitVars []Clause // case split on the skolemised bound variable of quantified invariants (inv-keep)
-	Snaps     [][2]string // ghost snapshots taken at loop entry: name, expression text
+	Invs       []Clause
+	Dec        *Clause
+	Splits     []Clause
+	SplitVars  []Clause    // case split on the skolemised bound variable of quantified invariants (inv-keep)
+	Snaps      [][2]string // ghost snapshots taken at loop entry: name, expression text
 	SnapsAfter [][2]string // ghost snapshots taken at loop exit
 }
 
@@ -68,7 +68,7 @@ type Contract struct {
 	CasesExpr    string   // cases <expr> in lo..hi: the function is verified once per value (a proof-search tactic; coverage is an obligation)
 	CasesLo      int
 	CasesHi      int
-	CasesElse    bool // `cases e in lo..hi else`: one more run for e outside lo..hi (then no coverage obligation is needed)
+	CasesElse    bool    // `cases e in lo..hi else`: one more run for e outside lo..hi (then no coverage obligation is needed)
 	caseCover    *Clause // set on the first case run: lo <= expr <= hi follows from the requires
 	caseNote     string
 	WitnessFrom  map[string]string // witness name -> callee contract that supplies it
@@ -90,6 +90,7 @@ type Engine struct {
 	fset       *token.FileSet
 	pkgs       map[string]*pkgInfo
 	byName     map[string]*pkgInfo
+	lemmaUse   map[string]map[string]bool
 	contracts  map[string]*Contract
 	order      []string
 	specs      *SpecDB
